@@ -77,7 +77,7 @@ class Clock:
 
 
 @contextlib.contextmanager
-def alarm(seconds=10.0):
+def alarm(seconds=120.0):
     """Abort a hang of the code under test (main thread only)."""
     def handler(signum, frame):
         raise HangDetected()
@@ -398,8 +398,11 @@ def exc_code(exc):
     return 30
 
 
-def budget_failure(T, waits, lockwaits, selans, lockans, outcome_code, what):
-    """waits requested never exceed what is left of T; a zero timeout never waits; TimeoutError only if exhausted."""
+def budget_failure(T, waits, lockwaits, selans, lockans, outcome_code, what, dt=None):
+    """Upper half: waits requested never exceed what is left of T; a zero timeout never waits.
+    Lower half (when the virtual duration dt of the call is given): TimeoutError only if the call really took >= T,
+    provided every "not ready" / "not acquired" answer came after the full requested wait (no early timeout, no wait
+    charged twice)."""
     if T is None:
         if outcome_code == 1:
             return f"{what}: TimeoutError with an infinite timeout"
@@ -421,4 +424,10 @@ def budget_failure(T, waits, lockwaits, selans, lockans, outcome_code, what):
         if req[0] > T - spent:
             return f"{what}: requested a wait of {req[0]} ticks with only {T - spent} left of T={T}"
         spent += el
+    if outcome_code == 1 and dt is not None and T > 0 and dt < T:
+        full = all((i >= len(selans)) or selans[i][0] == 1 or selans[i][1] >= w[1][0] for i, w in enumerate(waits) if w[1])
+        if lockwaits and lockans not in (None, "none") and not lockans[0]:
+            full = full and lockans[1] >= lockwaits[0][0]
+        if full:
+            return f"{what}: TimeoutError after only {dt} of T={T} ticks although no wait was cut short (early timeout)"
     return None
